@@ -1430,6 +1430,7 @@ struct ExecOut {
     parked: u64,
     try_fail: u64,
     unexplained_refusals: u64,
+    not_judged_weak: u64,
 }
 
 fn reset_monitor() {
@@ -1753,7 +1754,7 @@ fn run_exec(p: &Prog, run_seed: u64, ctx: &dyn std::fmt::Display) -> ExecOut {
             (r.ok(), tl_take())
         }));
     }
-    let mut out = ExecOut { recs: Vec::new(), ts: Vec::new(), ws: Vec::new(), sig: 0, parked: 0, try_fail: 0, unexplained_refusals: 0 };
+    let mut out = ExecOut { recs: Vec::new(), ts: Vec::new(), ws: Vec::new(), sig: 0, parked: 0, try_fail: 0, unexplained_refusals: 0, not_judged_weak: 0 };
     let mut incomplete = false;
     for h in hs {
         match h.join() {
@@ -1811,17 +1812,35 @@ fn run_exec(p: &Prog, run_seed: u64, ctx: &dyn std::fmt::Display) -> ExecOut {
             // decide on a Relaxed load that may be stale
             out.unexplained_refusals += 1;
         } else if !just {
+            // No interval overlaps in the monitor's (totally ordered) stamps. Under Miri's weak-memory
+            // emulation that is a refutation only if every earlier holder's release provably
+            // happens-before the failed call: otherwise a Relaxed load inside try_lock may legitimately
+            // still see the held word (the holding instant is concurrent with the call in the memory
+            // model). Provable: the caller released it itself (program order); the caller is the main
+            // thread after joining everybody; or the caller itself acquired this lock after that
+            // release (every hand-over of the word is a release/acquire RMW pair). Natively (x86-TSO,
+            // locked RMW stamps around the call) the stamp rule alone is sound.
+            let ordered = !IS_MIRI
+                || usize::from(f.t) == n
+                || out.recs.iter().filter(|o| o.ok && o.l == f.l && o.t != f.t && o.r < f.c).all(|o| {
+                    out.recs.iter().any(|q| q.ok && q.t == f.t && q.l == f.l && matches!(q.a, Acq::Lock | Acq::Try) && q.c > o.r && q.aft < f.c)
+                });
+            if !ordered {
+                out.not_judged_weak += 1;
+                continue;
+            }
             viol(
                 &format!("{}/unjustified-failure", f.a.mn_long()),
                 &format!(
-                    "{{\"thread\":{},\"lock\":{},\"call\":[{},{}],\"what\":\"no other call's outer interval on this lock overlaps the failed call\",\"run\":{ctx}}}",
-                    f.t, f.l, f.c, f.aft
+                    "{{\"thread\":{},\"lock\":{},\"call\":[{},{}],\"what\":\"no other call's outer interval on this lock overlaps the failed call{}\",\"run\":{ctx}}}",
+                    f.t, f.l, f.c, f.aft,
+                    if IS_MIRI { ", and every earlier release of this lock happens-before the call (own release, own later acquisition, or all threads joined)" } else { "" }
                 ),
             );
         }
     }
     let online: u64 = out.ws.iter().map(|w| w.online_unjustified).sum();
-    if online > 0 && VIOLS.load(Relaxed) == 0 && !panicked && !p.rw {
+    if online > 0 && VIOLS.load(Relaxed) == 0 && !panicked && !p.rw && out.not_judged_weak == 0 {
         vh::inconclusive(&format!("harness: online try-justification fired {online}x but the exact offline check did not ({ctx})"));
     }
     // (2) final value: count == number of exclusive sections (three independent counts)
@@ -1883,6 +1902,7 @@ struct Agg {
     park_execs: u64,
     failed_try_execs: u64,
     unexplained_refusals: u64,
+    not_judged_weak: u64,
 }
 impl Agg {
     fn add_ts(&mut self, t: &TStats) {
@@ -1938,6 +1958,7 @@ impl Agg {
             ("try_failure", w.try_fail),
             ("calls_that_panicked_in_repo_code", w.panicked_calls),
             ("formatting_operations", w.fmt_ops),
+            ("try_lock_failures_not_judged_concurrent_release_weak_memory", self.not_judged_weak),
             ("rw_refusals_without_overlapping_interval_not_judged", self.unexplained_refusals + if rw { w.online_unjustified } else { 0 }),
             ("ops", w.ops),
         ];
@@ -2104,6 +2125,7 @@ fn prog_mode(a: &vh::Args) {
                 agg.failed_try_execs += 1;
             }
             agg.unexplained_refusals += out.unexplained_refusals;
+            agg.not_judged_weak += out.not_judged_weak;
             if out.unexplained_refusals > 0 && agg.unexplained_refusals == out.unexplained_refusals {
                 println!("@@NOTE rwlock refusal without an overlapping outer interval (allowed: try_* decide on a Relaxed load) in {ctx}");
             }
